@@ -1,0 +1,20 @@
+//go:build verif
+
+package debugger
+
+// Accessors for the verification harness (build tag verif only).
+
+// VerifExport writes the current clients like the export dialog does.
+func (d *Debugger) VerifExport(filename string, snapshot bool) {
+	d.hExportData(filename, snapshot)
+}
+
+// VerifImport loads an exported file like the --import-data parameter does.
+func (d *Debugger) VerifImport(filename string) {
+	d.hImportData(filename)
+}
+
+// VerifFiltersActive tells if any transition filter is switched on.
+func (d *Debugger) VerifFiltersActive() bool {
+	return d.filtersActive()
+}
